@@ -300,8 +300,10 @@ def run(tier):
         for m, msg in leanchecker(chk, MODULES):
             broken.append({"kind": "leanchecker", "msg": f"{m}: {msg}"})
     if broken and not chk.violations and not chk.known_hit:
+        first = broken[0]
         chk.violation("tie-or-proof-broken",
-                      "a proof obligation or a correspondence no longer checks; the sweeps found no input on which the real code violates the property",
+                      "model/code tie or proof broken (NOT a demonstrated defect of the real code: every property check on the real answers passed): "
+                      + ", ".join(sorted({b.get("kind", "?") for b in broken})) + " — first: " + str(first.get("msg", first))[:300],
                       {"broken": broken[:20]}, False)
     elif broken:
         chk.notes.append({"broken": broken[:10]})
